@@ -651,7 +651,18 @@ class Interp:
                         for n_ in {x_.id for x_ in ast.walk(a.defaults[di]) if isinstance(x_, ast.Name)}:
                             if n_ in owner.consts:
                                 denv[n_] = self.class_const_value(owner, owner, owner.consts[n_])
-                    env[p] = self.expr(a.defaults[di], denv, depth + 1)
+                    dnode = a.defaults[di]
+                    once = not isinstance(dnode, ast.Constant) and not isinstance(fn, ast.Lambda) and \
+                        (owner is not None or env0 is None or all(isinstance(k_, str) and k_.startswith("@") for k_ in env0))
+                    if once:
+                        # a default is evaluated ONCE, when the def statement of a method / module-level function runs:
+                        # every call that leaves the argument out gets that one value (one shared list, one key pair)
+                        dm_ = self.__dict__.setdefault("_default_memo", {})
+                        if id(dnode) not in dm_:
+                            dm_[id(dnode)] = self.expr(dnode, denv, depth + 1)
+                        env[p] = dm_[id(dnode)]
+                    else:
+                        env[p] = self.expr(dnode, denv, depth + 1)
                 elif p not in env:
                     raise _Raise(("ext", "TypeError", []), "TypeError: %s() missing required argument %r" % (getattr(fn, "name", "lambda"), p))
         for x, d in zip(a.kwonlyargs, a.kw_defaults):
@@ -1108,6 +1119,41 @@ class Interp:
 
     def for_loop(self, s, env, depth):
         it = self.force(self.expr(s.iter, env, depth))
+        if it[0] == "iter2":
+            rec = {"entered": False, "exit": "not entered", "line": s.lineno}
+            if self.sym is not None:
+                self.sym.loops.append(rec)
+            rounds = 0
+            while True:
+                v_ = self.force(self.apply(it[1], [], {}, env, depth + 1, None))
+                if self.equal(v_, it[2], "iter-sentinel(%s)" % unparse(s.iter)):
+                    if rounds:
+                        rec["exit"] = "sentinel after %d iteration(s)" % rounds
+                    else:
+                        rec["exit"] = "break"
+                    self.block(s.orelse, env, depth)
+                    return
+                rec["entered"] = True
+                rounds += 1
+                self.assign(s.target, v_, env, depth)
+                self.push_loop()
+                try:
+                    self.block(s.body, env, depth)
+                    rec["exit"] = "fallthrough"
+                except _Break:
+                    rec["exit"] = "break"
+                    return
+                except _Continue:
+                    rec["exit"] = "continue"
+                except (_Raise, _Return):
+                    rec["exit"] = "raise/return"
+                    raise
+                finally:
+                    self.pop_loop()
+                if rounds >= max(self.loop_unroll, 1) and self.sym is not None:
+                    return              # a generic iteration (symbolic buffers): further rounds only on request
+                if rounds > Gen.MAX_ITEMS:
+                    raise Budget()
         if it[0] == "gen":
             n_ = 0
             try:
@@ -1183,6 +1229,11 @@ class Interp:
             return [("c", x) for x in it[1]]
         if it[0] == "items" and not it[2]:
             return [("list", [("c", k), v]) for k, v in it[1].items()]
+        if it[0] in ("ext", "fn") and "iterate" in self.hooks:
+            # a scripted library object that can be iterated (a database cursor: its rows)
+            r_ = self.hooks["iterate"](self, it)
+            if r_ is not None:
+                return list(r_)
         if it[0] == "gen":
             out = []
             try:
@@ -2126,7 +2177,7 @@ class Interp:
                 if ok:
                     try:
                         v_ = self.expr(ce, env, 1)
-                        if v_[0] in ("list", "dict", "c") and not (v_[0] != "c" and len(v_) > 2 and v_[2]):
+                        if (v_[0] in ("list", "dict", "c") and not (v_[0] != "c" and len(v_) > 2 and v_[2])) or v_[0] == "closure":
                             self.class_attrs[key] = v_
                     except (NeedAtom, _Raise, Budget, DomainGrew):
                         pass
@@ -2398,6 +2449,9 @@ class Interp:
             raise _Raise(("ext", "StopIteration", []), "StopIteration")
         if name == "iter" and a0 is not None and a0[0] == "gen":
             return a0
+        if name == "iter" and len(args) == 2 and a0[0] in ("bound", "closure", "clsmethod"):
+            # iter(callable, sentinel): calls until the sentinel comes back (consumed lazily by `for`)
+            return ("iter2", a0, args[1])
         if name == "next" and a0 is not None and a0[0] == "list" and not (len(a0) > 2 and a0[2]) and e is not None and e.args and isinstance(e.args[0], ast.GeneratorExp):
             # next(<generator expression>[, default]): the first element it produces
             if a0[1]:
@@ -2564,6 +2618,18 @@ class Interp:
                 if r is not None:
                     return r
             kk, m = self.repo.find_method(o.cls, name) if o.cls is not None else (None, None)
+            if m is None and o.cls is not None and name not in o.fields:
+                # a method made in the class body (`encrypt_image = _for_kind("encrypt", INFO_IMAGE)`, `alias = other`):
+                # a function stored in the class is bound to the instance like any method
+                kc_, ce_ = self.repo.class_const(o.cls, name)
+                if ce_ is not None and isinstance(ce_, (ast.Call, ast.Name, ast.Lambda)):
+                    v_ = self.class_const_value(kc_, o.cls, ce_)
+                    if v_[0] == "closure":
+                        return self.apply(v_, [recv] + list(args), kwargs, env, depth, e)
+                    if v_[0] == "clsmethod":
+                        kk2, m2 = self.repo.find_method(v_[1], v_[2])
+                        if m2 is not None and not func_is_static(m2) and not func_is_classmethod(m2):
+                            return self.call_function(m2, kk2, recv, args, kwargs, depth=depth + 1)
             if m is None:
                 return ("fn", "%s.%s" % (o.cls.name if o.cls else "?", name), [recv] + list(args))
             if func_is_static(m):
@@ -2618,7 +2684,32 @@ class Interp:
                 return ("fn", "dict." + name, [recv] + list(args))
             if name == "update" and args and args[0][0] == "dict":
                 d.update(args[0][1])
+                d.update({k_: v_ for k_, v_ in kwargs.items()})
                 return C_NONE
+            if name == "update" and not args and kwargs:
+                d.update({k_: v_ for k_, v_ in kwargs.items()})
+                return C_NONE
+            if name == "update" and args:
+                # an iterable of (key, value) pairs
+                pairs_ = self.iterate(self.force(args[0]))
+                if pairs_ is not None:
+                    ok_ = []
+                    for p_ in pairs_:
+                        p_ = self.force(p_)
+                        kv_ = self.iterate(p_) if p_[0] in ("list", "c") else None
+                        if kv_ is None or len(kv_) != 2:
+                            ok_ = None
+                            break
+                        kc_ = self.concrete(kv_[0]) if kv_[0][0] == "atom" else kv_[0]
+                        if kc_[0] != "c" or not _hashable(kc_[1]):
+                            ok_ = None
+                            break
+                        ok_.append((kc_[1], kv_[1]))
+                    if ok_ is not None:
+                        for k_, v_ in ok_:
+                            d[k_] = v_
+                        d.update({k_: v_ for k_, v_ in kwargs.items()})
+                        return C_NONE
             if name == "copy":
                 return ("dict", dict(d))
             return ("fn", "dict." + name, [recv] + list(args))
